@@ -52,6 +52,12 @@ func NewGitFS(gitDir string, repo *git.Repository, tree *object.Tree) *FS {
 // Compare takes a path to a git repository and returns errors between HEAD and HEAD~
 // for any incompatible Thrift changes between the two shas.
 func Compare(path string) (compare.Pass, error) {
+	// Included files are looked up by joining their path with the
+	// repository's: that only works with an absolute repository path.
+	path, err := filepath.Abs(path)
+	if err != nil {
+		return compare.Pass{}, err
+	}
 	pass := compare.Pass{
 		GitDir: path,
 	}
